@@ -785,8 +785,8 @@ def py_stmts(stmts, names):
             if isinstance(exc, ast.Call) and not exc.args and not exc.keywords:
                 exc = exc.func
             out.append(("raise", dotted(exc) if exc is not None else None))
-        elif isinstance(st, ast.Pass):
-            continue
+        elif isinstance(st, ast.Pass) or (isinstance(st, ast.Expr) and isinstance(st.value, ast.Constant)):
+            continue          # a docstring or a bare constant does nothing
         else:
             out.append(("stmt", norm(st)))
     return out
